@@ -111,11 +111,27 @@ func (k Keeper) ToggleClient(
 		return sdkerrors.Wrapf(types.ErrInvalidClientType, "cannot toggle client %s, client-type can't be the same", chainName)
 	}
 
+	// the client store of the chain name is re-used: remove the consensus states and
+	// metadata of the previous client type, which the new type cannot interpret
+	clientStore := k.ClientStore(ctx, chainName)
+	var staleKeys [][]byte
+	iterator := clientStore.Iterator(nil, nil)
+	for ; iterator.Valid(); iterator.Next() {
+		staleKeys = append(staleKeys, iterator.Key())
+	}
+	iterator.Close()
+	for _, key := range staleKeys {
+		clientStore.Delete(key)
+	}
+
 	k.SetClientState(ctx, chainName, newClientState)
-	if err := newClientState.Initialize(ctx, k.cdc, k.ClientStore(ctx, chainName), newConsensusState); err != nil {
+	if err := newClientState.Initialize(ctx, k.cdc, clientStore, newConsensusState); err != nil {
 		return err
 	}
-	k.SetClientConsensusState(ctx, chainName, newClientState.GetLatestHeight(), newConsensusState)
+	// a TSS client has no consensus states (see CreateClient)
+	if newConsensusState.ClientType() != exported.TSS {
+		k.SetClientConsensusState(ctx, chainName, newClientState.GetLatestHeight(), newConsensusState)
+	}
 
 	k.Logger(ctx).Info(
 		"client state toggled",
